@@ -79,14 +79,14 @@ Lemma consec_bounds l fs : consec l fs -> Forall (fun f => l <= f_lsn f /\ f_lsn
 Proof.
   revert l; induction fs as [|f fs IH]; intros l Hc; [constructor|].
   destruct Hc as [Hf Hc]. rewrite lenN_cons. constructor; [lia|].
-  eapply Forall_impl; [|apply IH; exact Hc]. cbn. intros g [? ?]. lia.
+  eapply Forall_impl; [|apply IH; exact Hc]. cbv beta. intros g [? ?]. split; lia.
 Qed.
 
 Lemma consec_inc l fs : consec l fs -> inc_keys f_lsn fs.
 Proof.
   revert l; induction fs as [|f fs IH]; intros l Hc; [exact I|].
   destruct Hc as [Hf Hc]. split; [|eapply IH; exact Hc].
-  eapply Forall_impl; [|apply consec_bounds; exact Hc]. cbn. intros g [? ?]. lia.
+  eapply Forall_impl; [|apply consec_bounds; exact Hc]. cbv beta. intros g [? ?]. lia.
 Qed.
 
 Definition fr_ok (f : frame) : Prop := frame_check f = None.
@@ -149,7 +149,7 @@ Proof.
   destruct (f_lsn f0 =? c_first (w_commit t)) eqn:E1; cbn [negb] in Hv; [|discriminate].
   destruct (f_lsn (last (w_frames t) f0) =? c_last (w_commit t)) eqn:E2; cbn [negb] in Hv; [|discriminate].
   destruct (lenN (w_frames t) =? c_count (w_commit t)) eqn:E3; cbn [negb] in Hv; [|discriminate].
-  destruct (check_tx_frames H (w_commit t) 0 (w_frames t)) eqn:E4; [|discriminate].
+  destruct (check_tx_frames H (w_commit t) 0 (w_frames t)) as [[]|] eqn:E4; [|discriminate].
   apply check_tx_frames_ok in E4. rewrite N.add_0_r in E4. destruct E4 as (Hc & Ho & Ht).
   assert (Hn : w_frames t <> []) by (rewrite Efs; discriminate).
   repeat split; auto.
@@ -262,4 +262,138 @@ Proof.
   rewrite Hrc. reflexivity.
 Qed.
 
+(* ------------------------------------------------------------------ tails *)
+Lemma last_commit_lsn_snoc cs c : last_commit_lsn (cs ++ [c]) = Some (c_last c).
+Proof. unfold last_commit_lsn. rewrite rev_app_distr. reflexivity. Qed.
+Lemma last_commit_lsn_app cs cs' : cs' <> [] -> last_commit_lsn (cs ++ cs') = last_commit_lsn cs'.
+Proof.
+  intros Hn. destruct (exists_last Hn) as (x & c & ->).
+  rewrite app_assoc, !last_commit_lsn_snoc. reflexivity.
+Qed.
+
+Lemma log_valid_last l0 ts t : log_valid l0 (ts ++ [t]) ->
+  c_last (w_commit t) + 1 = l0 + lenN (log_frames (ts ++ [t])).
+Proof.
+  intros Hv. destruct (log_valid_app _ _ _ Hv) as [_ Ht].
+  apply log_valid_cons in Ht. destruct Ht as (Htv & Hf & _).
+  destruct (tx_valid_shape t Htv) as (_ & _ & _ & _ & Hl).
+  rewrite log_frames_app, lenN_app, log_frames_cons. cbn [log_frames flat_map]. rewrite app_nil_r. lia.
+Qed.
+
+Lemma fc_tail_log l0 ts extra :
+  log_valid l0 ts -> consec (l0 + lenN (log_frames ts)) extra ->
+  fc_tail (log_frames ts ++ extra) (map w_commit ts) = expected_tail ts extra.
+Proof.
+  intros Hv He. unfold fc_tail, expected_tail.
+  destruct (log_valid_consec _ _ Hv) as [Hc _].
+  destruct ts as [|t0 ts0] using rev_ind.
+  - cbn [map log_frames flat_map app]. unfold last_commit_lsn. cbn [rev].
+    destruct extra; reflexivity.
+  - clear IHts0. rewrite map_app. cbn [map]. rewrite last_commit_lsn_snoc.
+    pose proof (log_valid_last _ _ _ Hv) as Hl.
+    rewrite existsb_app.
+    rewrite (existsb_none _ (log_frames (ts0 ++ [t0]))).
+    2:{ eapply Forall_impl; [|apply consec_bounds; exact Hc]. cbv beta. intros f [_ Hhi].
+        apply N.ltb_ge. lia. }
+    cbn [orb]. destruct extra as [|e extra]; [reflexivity|].
+    destruct He as [He _]. cbn [existsb].
+    replace (c_last (w_commit t0) <? f_lsn e) with true by (symmetry; apply N.ltb_lt; lia).
+    reflexivity.
+Qed.
+
+(* C10: the whole committed log, followed by any uncommitted frames, recovers to exactly the
+   committed transactions, with the tail posture that names the uncommitted part *)
+Theorem recover_fc_log l0 ts extra :
+  log_valid l0 ts -> consec (l0 + lenN (log_frames ts)) extra -> Forall fr_ok extra ->
+  recover_fc H (log_frames ts ++ extra) (map w_commit ts) = Ok (map rtx_of ts, expected_tail ts extra).
+Proof.
+  intros Hv He Ho. rewrite (recover_fc_selected l0) by (auto using incl_refl).
+  rewrite (fc_tail_log l0) by auto. reflexivity.
+Qed.
+
+(* C11 (F7), universally: removing the commit marker of any transaction that is not the last one is
+   accepted - the transaction silently disappears and the tail is reported Clean *)
+Theorem commit_removal_accepted l0 a t b :
+  log_valid l0 (a ++ t :: b) -> b <> [] ->
+  recover_fc H (log_frames (a ++ t :: b)) (map w_commit (a ++ b)) = Ok (map rtx_of (a ++ b), TClean).
+Proof.
+  intros Hv Hb.
+  pose proof (recover_fc_selected l0 (a ++ t :: b) [] (a ++ b) Hv) as R.
+  rewrite app_nil_r in R. rewrite R; [|exact I|constructor|].
+  2:{ intros x Hx. apply in_app_or in Hx. apply in_or_app. destruct Hx; [left|right; right]; auto. }
+  f_equal. f_equal.
+  pose proof (fc_tail_log l0 (a ++ t :: b) [] Hv) as T. rewrite app_nil_r in T.
+  unfold fc_tail in *. rewrite !map_app in *. cbn [map] in T.
+  rewrite last_commit_lsn_app by (destruct b; [congruence|discriminate]).
+  rewrite last_commit_lsn_app in T by discriminate.
+  change (w_commit t :: map w_commit b) with ([w_commit t] ++ map w_commit b) in T.
+  rewrite last_commit_lsn_app in T by (destruct b; [congruence|discriminate]).
+  apply T. exact I.
+Qed.
+
+(* ... a commit marker that occurs twice yields the transaction twice ... *)
+Theorem commit_duplicate_accepted l0 a t b :
+  log_valid l0 (a ++ t :: b) ->
+  recover_fc H (log_frames (a ++ t :: b)) (map w_commit (a ++ t :: t :: b)) =
+  Ok (map rtx_of (a ++ t :: t :: b), TClean).
+Proof.
+  intros Hv.
+  pose proof (recover_fc_selected l0 (a ++ t :: b) [] (a ++ t :: t :: b) Hv) as R.
+  rewrite app_nil_r in R. rewrite R; [|exact I|constructor|].
+  2:{ intros x Hx. apply in_app_or in Hx. apply in_or_app.
+      destruct Hx as [Hx|[Hx|Hx]]; [left; auto|right; left; auto|right; auto]. }
+  f_equal. f_equal.
+  pose proof (fc_tail_log l0 (a ++ t :: b) [] Hv) as T. rewrite app_nil_r in T.
+  unfold fc_tail in *. rewrite !map_app in *. cbn [map] in *.
+  rewrite last_commit_lsn_app by discriminate.
+  rewrite last_commit_lsn_app in T by discriminate.
+  change (w_commit t :: w_commit t :: map w_commit b)
+    with ([w_commit t] ++ w_commit t :: map w_commit b).
+  rewrite last_commit_lsn_app by discriminate.
+  apply T. exact I.
+Qed.
+
+(* ... and two adjacent commit markers in the wrong order yield the transactions in the wrong order *)
+Theorem commit_swap_accepted l0 a t1 t2 b :
+  log_valid l0 (a ++ t1 :: t2 :: b) -> b <> [] ->
+  recover_fc H (log_frames (a ++ t1 :: t2 :: b)) (map w_commit (a ++ t2 :: t1 :: b)) =
+  Ok (map rtx_of (a ++ t2 :: t1 :: b), TClean).
+Proof.
+  intros Hv Hb.
+  pose proof (recover_fc_selected l0 (a ++ t1 :: t2 :: b) [] (a ++ t2 :: t1 :: b) Hv) as R.
+  rewrite app_nil_r in R. rewrite R; [|exact I|constructor|].
+  2:{ intros x Hx. apply in_app_or in Hx. apply in_or_app.
+      destruct Hx as [Hx|[Hx|[Hx|Hx]]]; [left; auto|right; right; left; auto|right; left; auto|right; right; right; auto]. }
+  f_equal. f_equal.
+  pose proof (fc_tail_log l0 (a ++ t1 :: t2 :: b) [] Hv) as T. rewrite app_nil_r in T.
+  unfold fc_tail in *. rewrite !map_app in *. cbn [map] in *.
+  assert (Hmb : map w_commit b <> []) by (destruct b; [congruence|discriminate]).
+  change (w_commit t2 :: w_commit t1 :: map w_commit b)
+    with ([w_commit t2; w_commit t1] ++ map w_commit b).
+  change (w_commit t1 :: w_commit t2 :: map w_commit b)
+    with ([w_commit t1; w_commit t2] ++ map w_commit b) in T.
+  rewrite app_assoc, last_commit_lsn_app by exact Hmb.
+  rewrite app_assoc, last_commit_lsn_app in T by exact Hmb.
+  apply T. exact I.
+Qed.
+
 End WithHash.
+
+(* ------------------------------------------------------------------ a concrete log (non-vacuity) *)
+(* A deliberately weak "hash" - the theorems hold for every function. *)
+Definition exH (p : bytes) : N := fold_left (fun a b => a * 131 + b + 7) p 1.
+Definition exP (i : N) : tx_params :=
+  {| p_epoch := 5; p_seg := 1; p_tx := 100 + i; p_txkind := 1; p_codec := 2; p_schema := 3;
+     p_domain := 4; p_dur := 1; p_froot := 9 |}.
+(* previous-frame / previous-commit digests are deliberately constant: nothing reads them *)
+Definition ex_t1 : wtx := mk_tx exH (exP 1) 0 77 78 [(1, [1; 2]); (2, [])].
+Definition ex_t2 : wtx := mk_tx exH (exP 2) 2 77 78 [(6, [7])].
+Definition ex_t3 : wtx := mk_tx exH (exP 3) 3 77 78 [(1, [9; 9; 9]); (22, [0])].
+Definition ex_log : list wtx := [ex_t1; ex_t2; ex_t3].
+
+Lemma ex_tx_valid : Forall (tx_valid exH) ex_log.
+Proof.
+  repeat constructor; try (vm_compute; reflexivity).
+Qed.
+Lemma ex_log_valid : log_valid exH 0 ex_log.
+Proof. split; [exact ex_tx_valid|]. vm_compute. repeat split; reflexivity. Qed.
